@@ -493,6 +493,41 @@ func runC17(c *Ctx) {
 	}
 	if c.Check(len(envCmdFns) == 1, r4, "envcmds-fn", "", "env_cmds step found", fmt.Sprintf("%d functions evaluate env_cmds", len(envCmdFns))) {
 		ec := envCmdFns[0]
+		// every command has its own time budget: no deadline context created before the loop is handed to the
+		// command runner inside it
+		{
+			shared := ""
+			for _, lp := range NaturalLoops(ec) {
+				for b := range lp.Blocks {
+					for _, in := range b.Instrs {
+						call, ok := in.(*ssa.Call)
+						if !ok {
+							continue
+						}
+						for _, a := range call.Call.Args {
+							if a.Type().String() != "context.Context" {
+								continue
+							}
+							srcs, _ := p.Sources(a)
+							for _, src := range append(srcs, a) {
+								ex, isEx := stripConv(src).(*ssa.Extract)
+								if !isEx {
+									continue
+								}
+								wc, isC := ex.Tuple.(*ssa.Call)
+								if !isC {
+									continue
+								}
+								if o := CalleeObj(&wc.Call); o != nil && o.Pkg() != nil && o.Pkg().Path() == "context" && (o.Name() == "WithTimeout" || o.Name() == "WithDeadline") && !lp.Blocks[wc.Block()] {
+									shared = p.InstrPos(wc)
+								}
+							}
+						}
+					}
+				}
+			}
+			c.Check(shared == "", r4, "envcmds-own-deadline", FirstPos(p, ec), "each env command runs under its own deadline", "all env_cmds share one deadline context created before the loop ("+shared+"): once the earlier commands have used up the budget the remaining ones are killed and their variables are missing from every process's environment")
+		}
 		if ex := EarlyLoopExits(p, ec, false); true {
 			c.Check(len(ex) == 0, r4, "envcmds-exhaustive", FirstPos(p, ec), "every env command is evaluated", "the env_cmds step leaves its iteration early ("+strings.Join(ex, ", ")+"), e.g. at the first failing command: the remaining variables are missing from every process's environment (which ones depends on map order)")
 		}
